@@ -44,9 +44,9 @@ func c05(tier string) []*explore.Scenario {
 		c.Prop = "C16" // burst oracle keys stay C16; listed here only through the rpc donors above
 		_ = c
 	}
-	n := 10000
+	n := 66000 // beyond 2^16 ids with one call alive throughout
 	if tier == "thorough" {
-		n = 100000
+		n = 300000 // beyond 2^18
 		out = append(out, donors("C05", []*explore.Scenario{c01Direct(64, env.PipeOpts{Cap: 64}, 1, false)})...)
 	}
 	out = append(out, c05History(n))
@@ -256,6 +256,9 @@ func c05History(n int) *explore.Scenario {
 			var last uint64
 			bad := 0
 			d.Pipe.A.OnWrite = func(k int, rpc *env.Rpc) {
+				if rpc.GetHeader().GetMethod() != env.MUnary {
+					return // the long-lived stream keeps using its own (old) id
+				}
 				if rpc.GetId() <= last {
 					bad++
 				}
@@ -263,14 +266,48 @@ func c05History(n int) *explore.Scenario {
 			}
 			vsched.Settle()
 			r := w.Rec("h", "Unary")
+			// a long-lived stream stays open across the whole history and is used now and
+			// then: it must keep seeing exactly its own echoes however many calls come and go
+			lr := w.Rec("long", "Bidi")
+			w.Handlers["long"] = env.HEcho
+			ls := w.Open(d.CC, context.Background(), lr)
+			if ls == nil {
+				vsched.Fail(fam+"|call", "long-lived stream did not open: %v", lr.COpenErr)
+				return
+			}
+			pings := 0
+			ping := func(i int) bool {
+				msg := fmt.Sprintf("ping@%d", i)
+				if err := env.CSend(lr, ls, msg); err != nil {
+					vsched.Fail(fam+"|long-lived-stream", "after %d calls: send on the long-lived stream failed: %v", i, err)
+					return false
+				}
+				if err := env.CRecvOne(lr, ls); err != nil || lr.CRecv[len(lr.CRecv)-1] != "e:"+msg {
+					vsched.Fail(fam+"|long-lived-stream", "after %d calls: the long-lived stream received err=%v data=%v, want its own echo of %q", i, err, lr.CRecv[max(0, len(lr.CRecv)-1):], msg)
+					return false
+				}
+				pings++
+				return true
+			}
 			for i := 0; i < n; i++ {
 				out := new(env.Msg)
-				if err := d.CC.Invoke(context.Background(), env.MUnary, env.S("h|x"), out); err != nil || string(out.Value) != "R:h|x" {
+				req := fmt.Sprintf("h|%d", i)
+				if err := d.CC.Invoke(context.Background(), env.MUnary, env.S(req), out); err != nil || string(out.Value) != "R:"+req {
 					vsched.Fail(fam+"|call", "call %d: err=%v reply=%q", i, err, out.Value)
 					return
 				}
+				if i&(i+1) == 0 || i&(i-1) == 0 || i%4099 == 0 { // around every power of two, and regularly
+					if !ping(i) {
+						return
+					}
+				}
 			}
-			vsched.Obs("calls=%d handler=%d lastid=%d", n, r.HStarts, last)
+			env.CClose(lr, ls)
+			env.CRecvAll(lr, ls)
+			if lr.CErr != io.EOF {
+				vsched.Fail(fam+"|long-lived-stream", "the long-lived stream ended with %s after %d calls", env.ErrStr(lr.CErr), n)
+			}
+			vsched.Obs("calls=%d handler=%d lastid=%d pings=%d", n, r.HStarts, last, pings)
 			if bad > 0 {
 				vsched.Fail("C05/ids|duplicate-id", "%d of %d sequential calls reused or went back in the id space", bad, n)
 			}
